@@ -73,7 +73,9 @@ def articulation_points[S](
 
     discovery: dict[S, int] = {}
     low: dict[S, int] = {}
-    parent: dict[S, S | None] = {}
+    # Root marker: None is a legal node label, so it cannot double as "no parent"
+    root = object()
+    parent: dict[S, object] = {}
     ap: set[S] = set()
     time = [0]
     iterations = 0
@@ -97,7 +99,7 @@ def articulation_points[S](
                 # v is an articulation point if:
                 # 1. v is root and has 2+ children, OR
                 # 2. v is not root and low[w] >= discovery[v]
-                if parent[v] is None:
+                if parent[v] is root:
                     if children >= 2:
                         ap.add(v)
                 elif low[w] >= discovery[v]:
@@ -109,7 +111,7 @@ def articulation_points[S](
     # Handle disconnected components
     for v in node_list:
         if v not in discovery:
-            parent[v] = None
+            parent[v] = root
             dfs(v)
 
     return Result(ap, len(ap), iterations, n)
